@@ -5,9 +5,11 @@ package c12
 import (
 	"fmt"
 	"sort"
+	"sync"
 	"testing"
 	"time"
 
+	"github.com/wmnsk/go-pfcp/ie"
 	"github.com/wmnsk/go-pfcp/message"
 	"pgregory.net/rapid"
 
@@ -490,11 +492,53 @@ func run(c Case) (v *vcore.Violation, stt stats) {
 	for _, q := range c.Quiet {
 		quiet[q] = true
 	}
+	// every result the data plane hands out is marked (its start time, a second per result): a data plane's usage query reads
+	// and resets the counters, so a result that is not passed on to the SMF is usage lost, and one passed on twice is usage
+	// counted twice
+	type handed struct {
+		op  string
+		urr uint32
+	}
+	var tokMu sync.Mutex
+	tokens := map[int64]handed{}
+	var nextTok int64
 	d.ReportFor = func(op string, seid uint64, urrid uint32) []upfreport.USAReport {
 		if op == "remove" && quiet[urrid] {
 			return nil
 		}
-		return []upfreport.USAReport{{URRID: urrid, StartTime: time.Unix(1700000000, 0), EndTime: time.Unix(1700000100, 0)}}
+		tokMu.Lock()
+		nextTok++
+		tok := nextTok
+		tokens[tok] = handed{op, urrid}
+		tokMu.Unlock()
+		return []upfreport.USAReport{{URRID: urrid, StartTime: time.Unix(1700000000+tok, 0), EndTime: time.Unix(1700100000, 0)}}
+	}
+	// delivered checks the usage reports of a response against what the data plane handed out while the request was handled
+	delivered := func(what string, urs []stack.UsageRep) *vcore.Violation {
+		tokMu.Lock()
+		defer tokMu.Unlock()
+		for _, u := range urs {
+			tok := int64(-1)
+			for _, ch := range stack.Children(u.IE) {
+				if ch.Type == ie.StartTime {
+					if t, err := ch.StartTime(); err == nil {
+						tok = t.Unix() - 1700000000
+					}
+				}
+			}
+			h, ok := tokens[tok]
+			if !ok {
+				return vcore.Violatef("usage-twice", "%s: the usage report for URR %d carries a measurement (mark %d) that the data plane did not hand out for this request, or that was reported already", what, u.URR, tok)
+			}
+			if h.urr != u.URR {
+				return vcore.Violatef("usage-other-urr", "%s: the usage report for URR %d carries the measurement the data plane handed out for URR %d", what, u.URR, h.urr)
+			}
+			delete(tokens, tok)
+		}
+		for tok, h := range tokens {
+			return vcore.Violatef("usage-lost", "%s: the data plane was asked for the usage of URR %d (%s; reading resets the counters) and the result (mark %d) is in no usage report of the response: that usage is lost", what, h.urr, h.op, tok)
+		}
+		return nil
 	}
 	st, err := stack.New(stack.Opts{Driver: d, Nodes: 1})
 	if err != nil {
@@ -545,6 +589,10 @@ func run(c Case) (v *vcore.Violation, stt stats) {
 			}
 			gotT := multiset(urs, stack.TrigTERMR)
 			gotI := multiset(urs, stack.TrigIMMER)
+			lost := delivered(fmt.Sprintf("message %d %s", i, briefRules(ev.Rules)), urs)
+			if lost != nil && eq(gotT, wantT) {
+				return lost, stt
+			}
 			if !eq(gotT, wantT) {
 				key := "termr-missing"
 				for k, n := range gotT {
@@ -589,6 +637,9 @@ func run(c Case) (v *vcore.Violation, stt stats) {
 			}
 			got := multiset(urs, stack.TrigTERMR)
 			all := multiset(urs, 0xffffff)
+			if lost := delivered("deletion", urs); lost != nil && eq(got, want) && eq(all, want) {
+				return lost, stt
+			}
 			if !eq(got, want) || !eq(all, want) {
 				return vcore.Violatef("deletion-reports", "deletion: termination reports %s (all reports %s), expected %s", show(got), show(all), show(want)), stt
 			}
